@@ -104,9 +104,10 @@ class SLock(object):
             raise RuntimeError('release of un-acquired ' + self.label)
         self.count -= 1
         if self.count == 0:
-            self.owner = None
             if me is not None:
                 s._log(me, 'rel', self)
+            self.owner = None
+            if me is not None:
                 s._yield(me, RUN, None)
 
     __enter__ = acquire
@@ -156,10 +157,10 @@ class SCondition(object):
             raise RuntimeError('uncontrolled thread would wait on ' + self.label)
         if self.lock.owner is not me:
             raise RuntimeError('cannot wait on un-acquired lock')
+        s._log(me, 'wait', self)
         self.waiters.append(me)
         me.notified = False
         me.saved = (self.lock, self.lock._release_save())
-        s._log(me, 'wait', self)
         dl = None if timeout is None else s.clock + max(0, timeout)
         try:
             s._yield(me, WAIT, self, dl)
@@ -297,6 +298,7 @@ class Sched(object):
         self.log = []               # (step, tid, op, label, extra)
         self.step = 0
         self.livelock = False
+        self.hook = None            # observer for the correspondence (see _log)
         self._nobj = 0
         self.threading = _ThreadingModule(self)
         self.time = _TimeModule(self)
@@ -307,6 +309,10 @@ class Sched(object):
 
     def _log(self, me, op, obj, extra=None):
         self.log.append((self.step, me.id, op, getattr(obj, 'label', obj), extra))
+        if self.hook is not None and op in ('acq', 'rel', 'wait', 'woken', 'timeout', 'notify'):
+            # called in the context of the thread that performs the operation: after an outermost
+            # acquire / re-acquire, before the final release, before wait() gives the lock up
+            self.hook(me, op, obj, extra)
 
     def note(self, op, what=None, extra=None):
         """harness / simulated peer adds an event for the calling controlled thread"""
